@@ -19,3 +19,10 @@ pub use crdt::{
     StateChangeResult,
 };
 pub use member::GroupMember;
+
+/// Verification hook (H10): crate-private membership-state functions re-exported for the
+/// conformance harness. Compiled only with `--cfg p2panda_p2panda_verif`.
+#[cfg(p2panda_p2panda_verif)]
+pub mod verif_api {
+    pub use super::crdt::state::{add, create, demote, merge, promote, remove};
+}
